@@ -4,10 +4,10 @@ from fractions import Fraction as Fr
 from vlib.gen_traj import f2b, b2f
 
 PID = "C18"
-LEAN_MODULE = "Sb.Properties.C18"
+LEAN_MODULE = "Sb.Properties.C18Cardano"
 THEOREMS = ["Sb.C18.eval_deriv", "Sb.C18.eval_scale", "Sb.C18.eval_addConstant", "Sb.C18.eval_stretch", "Sb.C18.getDegree_eq",
             "Sb.C18.makeLinear_eval", "Sb.C18.makeLinear_ends", "Sb.C18.makeLinear_tiny", "Sb.C18.makeBezier_duration", "Sb.C18.makeBezier_const",
-            "Sb.C18.makeBezier_two", "Sb.C18.makeBezier_length", "Sb.C18.solve_linear", "Sb.C18.idealSolve3_correct",
+            "Sb.C18.makeBezier_two", "Sb.C18.makeBezier_length", "Sb.C18.solve_linear", "Sb.C18.idealSolve3_correct", "Sb.C18.idealSolve4_correct", "Sb.C18.depress", "Sb.C18.one_root", "Sb.C18.double_root", "Sb.C18.three_roots", "Sb.C18.cuberoots_conj", "Sb.C18.cuberoot_facts", "Sb.C18.cbrt_cube", "Sb.C18.idealTouches4_spec", "Sb.C18.idealTouches4_first", "Sb.C18.idealTouches3_spec", "Sb.C18.leftmost_some", "Sb.C18.sum4_exact", "Sb.C18.sum4_exact_horner", "Sb.C18.sum4_exact_pairwise", "Sb.C18.Dy.repr", "Sb.C18.dyadicSafe_mem",
             "Sb.C18.touches3_shortcut_above", "Sb.C18.touches3_shortcut_below", "Sb.C18.cubic_deriv_nonneg",
             "Sb.C18.touches4_shortcut_above", "Sb.C18.touches4_shortcut_below", "Sb.C01.makeBezier_eq_bernstein",
             "Sb.Corr.Cert.pos_sound", "Sb.Corr.Cert.root_sound", "Sb.Corr.Cert.segs_cover", "Sb.Corr.Cert.segs_roots", "Sb.Corr.Cert.partition_complete", "Sb.Corr.Cert.partition_sound", "Sb.Corr.Cert.reachesCert_true", "Sb.Corr.Cert.reachesCert_false", "Sb.Corr.Cert.hasRootCert_true", "Sb.Corr.Cert.hasRootCert_false", "Sb.Corr.Cert.rootsCert_complete", "Sb.Corr.Cert.rootsCert_sound", "Sb.Corr.Cert.sqrt2Segs_ok"]
@@ -16,7 +16,7 @@ RULE = ("coefficient / control-point vectors of length 0..8 (and 9, 10 for the c
         "[1/64, 64] of both signs plus durations below FLT_EPSILON for make_linear; scale factors and constants incl. 0 and negatives. "
         "Root-related queries: degree <= 3 with leading coefficient >= 5% of the largest lower-order coefficient (and exactly zero "
         "leading coefficients, which must dispatch to the lower degree), right-hand sides at values taken on [0,1], at the end points, "
-        "at interior extrema (double roots), outside the range, and on integer polynomials with exactly representable multiple roots; "
+        "at p(0) and p(1) of polynomials whose coefficients are small multiples of 1/16 (exact end-point solutions), at interior extrema (double roots), outside the range, and on integer polynomials with exactly representable multiple roots; "
         "degree 4..7 only for the 'unimplemented' answers. Non-trivial: at least one coefficient.")
 ASSUMPTIONS = ["float32 rounding of the implementation is bounded by the per-operation error bounds written in Sb/Corr/PolyOps.lean",
                "root finding (sqrtf/cbrtf/cpowf) is judged by the exact real-root oracle (answers certified, Sb/Proofs/CertSound.lean) with the tolerances rootTol=1/100, residTol=1/500, extTol=1/20000 (calibrated, DESIGN.md C18)"]
@@ -194,6 +194,20 @@ def generate(rng, tier):
         y0 = float(rng.choice([0, 0, 1, -3]))
         cs[0] += y0
         out.append((f"poly {len(cs)} " + " ".join(fb(c) for c in cs) + f" S{fb(y0)} T{fb(y0)} X S{fb(y0 + 1)} T{fb(y0 + 1)}", True))
+    # end-point solutions that are exact: coefficients and right-hand side are multiples of 1/16 below 2^10, so p(0) and p(1) are
+    # computed without any rounding in every summation order - when the value asked equals p(1) (or p(0)) a solution lies in
+    # [0,1] and 'touches' has to say so, also when the closed formula puts the root a float step outside the interval
+    for _ in range(1500 if thorough else 300):
+        k = rng.choice([3, 3, 4])
+        for _t in range(50):
+            cs = [rng.randint(-9600, 9600) / 16.0 for _ in range(k)]
+            lead, low = abs(cs[-1]), max(abs(c) for c in cs[1:-1])
+            if lead != 0 and lead >= 0.05 * low:
+                break
+        else:
+            continue
+        y1 = sum(cs)
+        out.append((f"poly {k} " + " ".join(fb(c) for c in cs) + f" T{fb(y1)} S{fb(y1)} T{fb(cs[0])} S{fb(cs[0])}", True))
     # Bezier-shaped cubics on [0,1] (what the trajectory code asks)
     for _ in range(600 if thorough else 90):
         sc = rng.choice([1, 10, 127])
